@@ -74,3 +74,175 @@ Definition run_flow (gcno_buf : bytes) (gcdas : list bytes) : N * list (N * N * 
   | Panic => (2, [])
   | OutOfFuel => (3, [])
   end.
+
+(* ---- rooted-forest witness for flow recovery (C08_flow_recovery) ---- *)
+Fixpoint sumc (c : N -> N) (l : list N) : N := match l with [] => 0 | x :: r => c x + sumc c r end.
+Fixpoint countN (a : N) (l : list N) : nat := match l with [] => O | x :: r => ((if N.eqb x a then 1 else 0) + countN a r)%nat end.
+(* sum over the elements different from the (optional) excluded arc *)
+Fixpoint sumc_ex (c : N -> N) (ex : option N) (l : list N) : N :=
+  match l with
+  | [] => 0
+  | x :: r => (if match ex with Some p => p =? x | None => false end then 0 else c x) + sumc_ex c ex r
+  end.
+
+Section forest_defs.
+Context (edges0 : list gedge) (par : N -> option (N * N)).
+Definition parc (b : N) : option N := fst <$> par b.
+Definition tree0 (id : N) : bool := match nthN edges0 id with Some e => is_on_tree e | None => false end.
+Definition nbr_s (id : N) : N := match nthN edges0 id with Some e => e_src e | None => 0 end.
+Definition nbr_d (id : N) : N := match nthN edges0 id with Some e => e_dst e | None => 0 end.
+(* incidences of a block as the algorithm sees them: (arc id, block at the other end) *)
+Definition inc (blk : gblock) : list (N * N) :=
+  map (fun id => (id, nbr_s id)) (b_src blk) ++ map (fun id => (id, nbr_d id)) (b_dst blk).
+(* the arcs to children: ON_TREE and not the parent arc *)
+Definition child_arc (b : N) (id : N) : bool :=
+  tree0 id && negb (match parc b with Some p => p =? id | None => false end).
+
+End forest_defs.
+
+(* the witness as lists indexed by block number, and its executable check *)
+Definition par_of (parl : list (option (N * N))) (b : N) : option (N * N) :=
+  match nthN parl b with Some p => p | None => None end.
+Definition rank_of (rankl : list nat) (b : N) : nat := default O (nthN rankl b).
+Definition root_of (rootl : list N) (b : N) : N := default b (nthN rootl b).
+Fixpoint nodupb (l : list N) : bool := match l with [] => true | x :: r => negb (memN x r) && nodupb r end.
+Definition pair_mem (p : N * N) (l : list (N * N)) : bool := existsb (fun q => (q.1 =? p.1) && (q.2 =? p.2)) l.
+
+Section rooted_check.
+Context (blocks : list gblock) (edges : list gedge) (par : N -> option (N * N)) (rank : N -> nat) (rootof : N -> N).
+Definition rooted_block_ok (b : N) (blk : gblock) : bool :=
+  forallb (fun q => negb (child_arc edges par b q.1) ||
+                    match par q.2 with Some (i, p) => (i =? q.1) && (p =? b) | None => false end) (inc edges blk)
+  && nodupb (List.filter (child_arc edges par b) (map fst (inc edges blk)))
+  && match par b with
+     | Some (a, u) => tree0 edges a && (rank u <? rank b)%nat && (rootof b =? rootof u) && (rootof b <? b)
+                      && Nat.eqb (countN a (b_src blk ++ b_dst blk)) 1
+                      && match nthN blocks u with Some ublk => pair_mem (a, b) (inc edges ublk) | None => false end
+     | None => rootof b =? b
+     end.
+Definition rooted_all : bool :=
+  let idx := count_from (length blocks) 0 in
+  forallb (fun b => match nthN blocks b with Some blk => rooted_block_ok b blk | None => false end) idx
+  && forallb (fun x => forallb (fun y => match parc par x, parc par y with
+                                         | Some a, Some a' => negb (a =? a') || (x =? y)
+                                         | _, _ => true
+                                         end) idx) idx
+  && forallb (fun id => negb (tree0 edges id) ||
+                        existsb (fun b => match parc par b with Some i => i =? id | None => false end) idx)
+             (count_from (length edges) 0).
+End rooted_check.
+Definition rooted_b (blocks : list gblock) (edges : list gedge) (parl : list (option (N * N))) (rankl : list nat) (rootl : list N) : bool :=
+  Nat.eqb (length parl) (length blocks) && Nat.eqb (length rootl) (length blocks)
+  && rooted_all blocks edges (par_of parl) (rank_of rankl) (root_of rootl).
+
+(* search for the witness: depth-first from every block in index order (not trusted: checked by rooted_b) *)
+Definition wit : Type := list (option (N * N)) * list nat * list N * list N.   (* par, rank, root, visited *)
+Fixpoint wit_dfs (fuel : nat) (blocks : list gblock) (edges : list gedge) (stack : list (N * option (N * N) * nat * N)) (w : wit) : wit :=
+  match fuel with
+  | O => w
+  | S fuel =>
+      match stack with
+      | [] => w
+      | (b, p, r, root) :: rest =>
+          let '(parl, rankl, rootl, vis) := w in
+          if memN b vis then wit_dfs fuel blocks edges rest w else
+          match nthN blocks b with
+          | None => wit_dfs fuel blocks edges rest w
+          | Some blk =>
+              let pa := match p with Some (a, _) => Some a | None => None end in
+              let kids := List.filter (fun q => tree0 edges q.1 && negb (match pa with Some a => a =? q.1 | None => false end)) (inc edges blk) in
+              let w' := (alterN (fun _ => p) b parl, alterN (fun _ => r) b rankl, alterN (fun _ => root) b rootl, b :: vis) in
+              wit_dfs fuel blocks edges (map (fun q => (q.2, Some (q.1, b), S r, root)) kids ++ rest) w'
+          end
+      end
+  end.
+Definition find_rooted (blocks : list gblock) (edges : list gedge) : list (option (N * N)) * list nat * list N :=
+  let n := length blocks in
+  let idx := count_from n 0 in
+  let w0 : wit := (map (fun _ => None) idx, map (fun _ => O) idx, idx, []) in
+  let '(p, r, t, _) := wit_dfs (2 * length edges + 2 * n + 4) blocks edges (map (fun b => (b, None, O, b)) idx) w0 in
+  (p, r, t).
+
+(* out-flow of block b by arc ends: all arcs / measured arcs only / ON_TREE arcs only, summing the arcs' own counters *)
+Definition osum (p : gedge -> bool) (edges : list gedge) (b : N) : N :=
+  fold_right (fun e acc => (if p e && (e_src e =? b) then e_counter e else 0) + acc) 0 edges.
+Definition any_arc (e : gedge) : bool := true.
+Definition measured (e : gedge) : bool := negb (is_on_tree e).
+(* the state read_gcda leaves: every block counter is the sum of its measured outgoing arcs (checked per input) *)
+Definition blocks_consistent (blocks : list gblock) (edges : list gedge) : bool :=
+  forallb (fun b => match nthN blocks b with Some blk => b_counter blk =? osum measured edges b | None => false end)
+          (count_from (length blocks) 0).
+
+(* conservation as the algorithm sees it: per block, the counters over its incoming list and over its outgoing list *)
+Definition cnt_of (edges : list gedge) (id : N) : N := match nthN edges id with Some e => e_counter e | None => 0 end.
+Definition conserving_adj (blocks : list gblock) (edges : list gedge) : bool :=
+  forallb (fun blk => (sumc (cnt_of edges) (b_src blk) =? sumc (cnt_of edges) (b_dst blk)) && (sumc (cnt_of edges) (b_src blk) <? two64)) blocks.
+(* per function: does the graph count_on_tree works on (before counting) have a rooted-forest witness, and are its
+   block counters the sums of their measured outgoing arcs?  (hypotheses of C08_flow_recovery / _blocks) *)
+Definition rooted_report (version : N) (f : gfun) : bool :=
+  if lenN (f_blocks f) <? 2 then true else
+  match push_arc (f_blocks f) (f_edges f) (if version <? 48 then lenN (f_blocks f) - 1 else 1) 0 ARC_ON_TREE with
+  | Ok (blocks, edges) => let '(p, r, t) := find_rooted blocks edges in rooted_b blocks edges p r t && blocks_consistent blocks edges
+  | _ => false
+  end.
+(* (blocks, arcs, conserving by arc ends, peel order found, conserving by adjacency lists + sums < 2^64, rooted witness found) *)
+Definition run_flow2 (gcno_buf : bytes) (gcdas : list bytes) : N * list (N * N * bool * bool * bool * bool) :=
+  match (let* g := read_gcno gcno_buf in ofold (read_gcda wrap64) gcdas g) with
+  | Ok g1 =>
+      match stop wrap64 g1 with
+      | Ok g2 => (0, map (fun '(f1, f2) =>
+                            (lenN (f_blocks f2), lenN (f_edges f2), conserving (length (f_blocks f2)) (f_edges f2),
+                             match find_peel (f_edges f2) with Some ord => peel_ok (f_edges f2) ord | None => false end,
+                             conserving_adj (f_blocks f2) (f_edges f2), rooted_report (g_version g1) f1))
+                         (zip (g_funs g1) (g_funs g2)))
+      | Err => (1, []) | Panic => (2, []) | OutOfFuel => (3, [])
+      end
+  | Err => (1, []) | Panic => (2, []) | OutOfFuel => (3, [])
+  end.
+
+
+(* ---- executable "nothing overflows" (hypothesis of C15_k_copies_scale_wrap), evaluated in exact arithmetic ---- *)
+Definition exact_add (x : N) : N := x.
+Definition total_count (edges : list gedge) : N := fold_right (fun e acc => e_counter e + acc) 0 edges.
+Definition flow_ok_b (version : N) (f : gfun) : bool :=
+  if lenN (f_blocks f) <? 2 then true else
+  match push_arc (f_blocks f) (f_edges f) (if version <? 48 then lenN (f_blocks f) - 1 else 1) 0 ARC_ON_TREE with
+  | Ok (blocks, edges) =>
+      match count_on_tree exact_add version f with
+      | Ok f' =>
+          let c := cnt_of (f_edges f') in
+          let '(p, r, t) := find_rooted blocks edges in
+          rooted_b blocks edges p r t
+          && forallb (fun id => match nthN edges id with Some e => is_on_tree e || (e_counter e =? c id) | None => true end)
+                     (count_from (length edges) 0)
+          && forallb (fun blk => (sumc c (b_src blk) =? sumc c (b_dst blk)) && (sumc c (b_src blk) <? two64)) blocks
+          && blocks_consistent blocks edges
+          && (total_count (f_edges f') <? two64)
+      | _ => false
+      end
+  | _ => false
+  end.
+Definition cbounded_b (g : gcno) : bool :=
+  forallb (fun f => forallb (fun e => e_counter e <? two64) (f_edges f) && forallb (fun b => b_counter b <? two64) (f_blocks f)) (g_funs g).
+Definition single_block_lines_b (f : gfun) : bool :=
+  forallb (fun p => Nat.eqb (length p.2) 1) (map_to_list (lines_to_block (f_blocks f))).
+Definition lines_bounded_b (r : gmap name cov) : bool :=
+  forallb (fun p => forallb (fun q => q.2 <? two64) (map_to_list (c_lines p.2))) (map_to_list r).
+Definition no_overflow_b (gcno_buf : bytes) (ds : list bytes) (br : bool) : bool :=
+  match read_gcno gcno_buf with
+  | Ok g0 =>
+      match ofold (read_gcda exact_add) ds g0 with
+      | Ok g1 =>
+          match stop exact_add g1 with
+          | Ok g2 =>
+              match finalize exact_add N.sub br g2 with
+              | Ok re => cbounded_b g1 && forallb (flow_ok_b (g_version g1)) (g_funs g1)
+                         && forallb single_block_lines_b (g_funs g2) && lines_bounded_b re
+              | _ => true
+              end
+          | _ => true
+          end
+      | _ => true
+      end
+  | _ => true
+  end.
